@@ -611,7 +611,50 @@ def strat_bin(tier):
         'kind': st.sampled_from(['float', 'float', 'float32', 'intfloat', 'int64', 'const', 'uint16', 'uint8', 'int32']),
         'scalar_factor': st.booleans(), 'avg_name': st.sampled_from(['avg', 'average', 'mean']),
         'seq': st.sampled_from(['list', 'tuple', 'ndarray']), 'layout': st.sampled_from(LAYOUTS), 'before': st.booleans(), 'seed': U.seeds,
-        'failed_call': st.sampled_from(['none', 'none', 'none', 'bad-mode', 'not-divisible', 'factor-length', 'factor-zero', 'not-an-array'])}))
+        'failed_call': st.sampled_from(['none', 'none', 'none', 'bad-mode', 'not-divisible', 'factor-length', 'factor-zero', 'not-an-array']),
+        'pattern': st.sampled_from(PATTERNS), 'exp10': st.sampled_from([0, 0, 0, -17, 30, -6, 9])}))
+
+
+# value patterns of the data to bin / tile (both operations are linear and documented for N-D arrays, not for images only): signed data
+# whose total cancels to rounding residue or exactly, data with exact zeros, one dominant sample
+PATTERNS = ['plain', 'plain', 'mean-removed', 'mean-removed', 'alternating', 'alternating-const', 'antisymmetric', 'decimal-cancel',
+            'block-mean-removed', 'zeros-inside', 'one-outlier', 'all-zero']
+
+
+def _pattern(a, pattern, r, factor=None):
+    """the float array a (values of order 1) with the value pattern imposed; same shape and dtype"""
+    dt = a.dtype
+    a = a.astype(np.float64)
+    sign = 1.0 - 2.0 * (np.indices(a.shape).sum(axis=0) % 2) if a.ndim else np.float64(1.0)
+    if pattern == 'mean-removed':
+        a = a - a.mean()                      # OPD-like maps: the total is rounding residue, not 0.0
+    elif pattern == 'alternating':
+        a = np.abs(a) * sign
+    elif pattern == 'alternating-const':
+        a = 1.75 * sign                       # an even number of samples cancels exactly
+    elif pattern == 'antisymmetric':
+        a = (a - a[(slice(None, None, -1),) * a.ndim]) / 2
+    elif pattern == 'decimal-cancel':
+        vals = np.array([0.1, 0.2, -0.3, 0.7, -0.1, -0.6])      # 0.1 + 0.2 - 0.3 = 5.6e-17
+        a = vals[(np.arange(a.size) + int(r.integers(0, 6))) % 6].reshape(a.shape)
+    elif pattern == 'block-mean-removed' and factor is not None:
+        # every block of the array to bin has (nearly) zero total
+        m = a
+        for ax, f in enumerate(factor):
+            sh = m.shape[:ax] + (m.shape[ax] // f, f) + m.shape[ax + 1:]
+            m = np.repeat(m.reshape(sh).mean(axis=ax + 1), f, axis=ax)
+        a = a - m
+    elif pattern == 'block-mean-removed':
+        a = a - a.mean()
+    elif pattern == 'zeros-inside':
+        a = np.where(r.uniform(size=a.shape) < 0.4, 0.0, a)
+    elif pattern == 'one-outlier':
+        a = a * 1e-9
+        if a.size:
+            a.flat[int(r.integers(0, a.size))] = -1.0
+    elif pattern == 'all-zero':
+        a = np.zeros(a.shape)
+    return a.astype(dt)
 
 
 def _ref_bindown_sum(x, factor):
@@ -643,12 +686,20 @@ def check_bin(case, ctx):
               'factor>4' if max(factor) > 4 else 'factors<=4')
     r = U.rng_of(case['seed'], 18)
     kind = case['kind']
-    if kind == 'float':
+    pattern, exp10 = case.get('pattern', 'plain'), case.get('exp10', 0)
+    if kind in ('float', 'float32'):
         x = r.uniform(-1, 3, shape)
         y = r.uniform(-1, 3, out_shape)
-    elif kind == 'float32':
-        x = r.uniform(-1, 3, shape).astype(np.float32)
-        y = r.uniform(-1, 3, out_shape).astype(np.float32)
+        if pattern != 'plain' or exp10:
+            # value pattern and overall magnitude of the data (both operations are linear); float32 keeps within its range
+            rp = U.rng_of(case['seed'], 181)
+            x = _pattern(x, pattern, rp, factor) * 10.0 ** exp10
+            y = _pattern(y, pattern, rp) * 10.0 ** exp10
+            ctx.label('pattern:' + pattern, 'magnitude:1e%d' % exp10)
+            sy = float(np.sum(y))
+            ctx.label('tile-input-total:' + ('exactly-zero' if sy == 0 else 'cancels-to-residue' if abs(sy) <= 1e-13 * float(np.sum(np.abs(y))) else 'does-not-cancel'))
+        if kind == 'float32':
+            x, y = x.astype(np.float32), y.astype(np.float32)
     elif kind == 'const':
         x = np.full(shape, 2.75)
         y = np.full(out_shape, -1.5)
@@ -660,6 +711,11 @@ def check_bin(case, ctx):
     else:
         x = r.integers(-50, 1000, shape).astype(np.float64 if kind == 'intfloat' else np.int64)
         y = r.integers(-50, 1000, out_shape).astype(np.float64 if kind == 'intfloat' else np.int64)
+        if pattern in ('alternating', 'antisymmetric', 'zeros-inside', 'all-zero'):
+            # whole-number data with the sign / zero patterns (arithmetic stays exact)
+            rp = U.rng_of(case['seed'], 181)
+            x, y = np.trunc(_pattern(x.astype(np.float64), pattern, rp)).astype(x.dtype), np.trunc(_pattern(y.astype(np.float64), pattern, rp)).astype(y.dtype)
+            ctx.label('pattern:' + pattern + ':whole-numbers')
     farg = (list(factor) if case['seq'] == 'list' else np.array(factor) if case['seq'] == 'ndarray' else factor)
     if allsame and case['scalar_factor']:
         farg = np.int64(factor[0]) if case['seq'] == 'ndarray' else int(factor[0])
